@@ -8,11 +8,67 @@ OUTPUTS = ["NegotiateGen.v"]
 CMPNAME = {ast.Gt: "CmpGt", ast.GtE: "CmpGe", ast.Lt: "CmpLt", ast.LtE: "CmpLe", ast.Eq: "CmpEq", ast.NotEq: "CmpNe"}
 
 
-def names_of_call_args(call):
-    out = []
+def names_of_call_args(call, fn=None):
+    """the argument expressions of a call to a module-level function.  An argument that is a local NAME is read through its binding
+    when that binding is one of a run of simple assignments `n = E` IMMEDIATELY before the statement containing the call, n is bound
+    nowhere else in the function and read nowhere but in this call, and the run's right-hand sides are evaluated in the same left-to-
+    right order as the arguments they feed: `a = E1; b = E2; f(a, b, x)` evaluates E1, E2, x exactly as `f(E1, E2, x)` does (only the
+    look-up of the global name f moves, which evaluates nothing)."""
+    out = [ast.unparse(a) for a in call.args]
+    if fn is None:
+        return out
+    # the statement list and index of the statement that contains the call
+    def blocks(stmts):
+        yield stmts
+        for st in stmts:
+            for field in ("body", "orelse", "finalbody"):
+                sub = getattr(st, field, None)
+                if isinstance(sub, list) and sub and isinstance(sub[0], ast.stmt) and not isinstance(st, (ast.FunctionDef, ast.ClassDef)):
+                    for b in blocks(sub):
+                        yield b
+            if isinstance(st, ast.Try):
+                for h in st.handlers:
+                    for b in blocks(h.body):
+                        yield b
+    where = None
+    for L in blocks(fn.body):
+        for i, st in enumerate(L):
+            own = [n for n in ast.walk(st) if n is call]
+            inner = any(isinstance(getattr(st, f, None), list) and any(n is call for x in getattr(st, f) if isinstance(x, ast.AST) for n in ast.walk(x))
+                        for f in ("body", "orelse", "finalbody"))
+            if own and not inner:
+                where = (L, i)
+    if where is None:
+        return out
+    L, i = where
+    run = {}
+    order = []
+    j = i - 1
+    while j >= 0 and isinstance(L[j], ast.Assign) and len(L[j].targets) == 1 and isinstance(L[j].targets[0], ast.Name):
+        run[L[j].targets[0].id] = L[j].value
+        order.insert(0, L[j].targets[0].id)
+        j -= 1
+    stores, loads = {}, {}
+    for n in ast.walk(fn):
+        if isinstance(n, ast.Name):
+            d = stores if isinstance(n.ctx, (ast.Store, ast.Del)) else loads
+            d[n.id] = d.get(n.id, 0) + 1
+    argnames = [a.id for a in call.args if isinstance(a, ast.Name)]
+    used = [n for n in argnames if n in run and stores.get(n) == 1 and loads.get(n) == 1 and argnames.count(n) == 1]
+    # same relative order as the bindings, and no other argument before them has side effects to reorder with (they are names or were
+    # plain expressions already evaluated in argument order after the bindings)
+    if used != [n for n in order if n in used]:
+        return out
+    first_used_pos = min([k for k, a in enumerate(call.args) if isinstance(a, ast.Name) and a.id in used] or [0])
+    if any(not isinstance(a, (ast.Name, ast.Constant)) for a in call.args[:first_used_pos]):
+        return out
+    res = []
     for a in call.args:
-        out.append(ast.unparse(a))
-    return out
+        if isinstance(a, ast.Name) and a.id in used:
+            res.append(ast.unparse(run[a.id]))
+        else:
+            res.append(ast.unparse(a))
+    return res
 
 
 def generate():
@@ -55,12 +111,12 @@ def generate():
     evh = P.find_def(mod, "Negotiation.evaluateHello")
     (c1,) = the_call(evh, "best_overlap", 1)
     want1 = ["self.minVersion", "self.maxVersion", "theirMinVer", "theirMaxVer"]
-    if names_of_call_args(c1)[:4] != want1:
-        raise P.Untranslatable("evaluateHello: best_overlap called with %s" % names_of_call_args(c1))
+    if names_of_call_args(c1, evh)[:4] != want1:
+        raise P.Untranslatable("evaluateHello: best_overlap called with %s" % names_of_call_args(c1, evh))
     (c2,) = the_call(ev1, "best_overlap", 1)
     want2 = ["self.initialVocabTableRange[0]", "self.initialVocabTableRange[1]", "theirVocabMin", "theirVocabMax"]
-    if names_of_call_args(c2)[:4] != want2:
-        raise P.Untranslatable("evaluateNegotiationVersion1: best_overlap called with %s" % names_of_call_args(c2))
+    if names_of_call_args(c2, ev1)[:4] != want2:
+        raise P.Untranslatable("evaluateNegotiationVersion1: best_overlap called with %s" % names_of_call_args(c2, ev1))
     # the hello really carries our ranges: negotiationOffer built from minVersion/maxVersion/initialVocabTableRange
     init = P.find_def(mod, "Negotiation.__init__")
     src_init = ast.unparse(init)
@@ -71,8 +127,8 @@ def generate():
     acc = P.find_def(mod, "Negotiation.acceptDecisionVersion1")
     (c3,) = the_call(acc, "check_inrange", 1)
     want3 = ["self.initialVocabTableRange[0]", "self.initialVocabTableRange[1]", "vocab_index"]
-    if names_of_call_args(c3)[:3] != want3:
-        raise P.Untranslatable("acceptDecisionVersion1: check_inrange called with %s" % names_of_call_args(c3))
+    if names_of_call_args(c3, acc)[:3] != want3:
+        raise P.Untranslatable("acceptDecisionVersion1: check_inrange called with %s" % names_of_call_args(c3, acc))
     # hash comparison guard:  if vocab_index > 0 and our_hash != vocab_hash: raise
     guards = [n for n in ast.walk(acc) if isinstance(n, ast.If) and "our_hash" in ast.unparse(n.test)]
     if len(guards) != 1 or ast.unparse(guards[0].test) != "vocab_index > 0 and our_hash != vocab_hash" \
@@ -98,23 +154,124 @@ def generate():
     if "self.decision_version = best" not in ast.unparse(evh):
         raise P.Untranslatable("evaluateHello no longer records decision_version = best")
 
-    # --- header cap in dataReceived: the terminator is searched first, and the block is refused when the
-    #     terminator lies beyond the cap or is absent with more than cap bytes buffered
+    # --- header cap in dataReceived, read by MEANING: the statements between the terminator search and the split of the buffer are
+    #     executed symbolically into one function of (eoh, len(self.buffer)) -> 0 refuse (raise) / 1 wait (return) / 2 split.
+    #     Any arrangement of the tests (flat `or`, nested ifs, early returns, named int constants) yields a function that
+    #     lib/NegotiateProofs.v proves equal to the specification over the cap and the slack; nothing else is accepted.
     dr = P.find_def(mod, "Negotiation.dataReceived")
-    caps = [n for n in ast.walk(dr) if isinstance(n, ast.If) and "len(self.buffer) >" in ast.unparse(n.test)]
-    if len(caps) != 1 or not any(isinstance(s, ast.Raise) for s in caps[0].body):
-        raise P.Untranslatable("dataReceived: header cap changed")
-    m = __import__("re").fullmatch(r"eoh > (\d+) or \(?eoh == -1 and len\(self\.buffer\) >= (\d+) \+ (\d+)\)?", ast.unparse(caps[0].test))
-    if not m or m.group(1) != m.group(2):
-        raise P.Untranslatable("dataReceived: header cap test is %s" % ast.unparse(caps[0].test))
-    out.append("Definition negotiation_noterm_slack : Z := %s.  (* give up without a terminator once cap + slack bytes are buffered *)" % m.group(3))
-    # the find must precede the cap test, the early return must follow it
-    body = [ast.unparse(x) for x in ast.walk(dr) if isinstance(x, (ast.Assign, ast.If))]
-    finds = [i for i, t in enumerate(body) if t.startswith("eoh = self.buffer.find(b'\\r\\n\\r\\n')")]
-    capi = [i for i, t in enumerate(body) if t.startswith("if eoh >")]
-    if len(finds) != 1 or len(capi) != 1 or not finds[0] < capi[0]:
-        raise P.Untranslatable("dataReceived: terminator search does not precede the header cap")
-    out.append("Definition negotiation_header_cap : Z := %s." % m.group(1))
+    tries = [n for n in dr.body if isinstance(n, ast.Try)]
+    if len(tries) != 1:
+        raise P.Untranslatable("dataReceived: expected exactly one try block")
+    tb = tries[0].body
+    finds = [i for i, st in enumerate(tb) if ast.unparse(st) == "eoh = self.buffer.find(b'\\r\\n\\r\\n')"]
+    if len(finds) != 1:
+        raise P.Untranslatable("dataReceived: the terminator search `eoh = self.buffer.find(b'\\r\\n\\r\\n')` was not found exactly once")
+    if any("self.buffer" in ast.unparse(st) and not isinstance(st, ast.Expr) for st in tb[:finds[0]]):
+        raise P.Untranslatable("dataReceived: the buffer is touched inside the try block before the terminator search")
+    consts_eoh, consts_len, split_k = set(), set(), []
+    ienv = {}          # locals bound to int literals between the search and the split (bound once, checked below)
+
+    def val(e):
+        u = ast.unparse(e)
+        if u == "eoh":
+            return "eoh"
+        if u == "len(self.buffer)":
+            return "buflen"
+        try:
+            v = P.const_expr(e, ienv)
+        except P.Untranslatable:
+            v = None
+        if type(v) is int:
+            return v
+        raise P.Untranslatable("dataReceived: header test compares %s" % u)
+
+    def coqv(v):
+        return ("(%d)" % v) if isinstance(v, int) else v
+
+    def cond(e):
+        if isinstance(e, ast.BoolOp):
+            return "(" + (" && " if isinstance(e.op, ast.And) else " || ").join(cond(v) for v in e.values) + ")"
+        if isinstance(e, ast.UnaryOp) and isinstance(e.op, ast.Not):
+            return "(negb %s)" % cond(e.operand)
+        if isinstance(e, ast.Compare) and len(e.ops) == 1:
+            a, b = val(e.left), val(e.comparators[0])
+            for x, y in ((a, b), (b, a)):
+                if x == "eoh" and isinstance(y, int):
+                    consts_eoh.add(y)
+                if x == "buflen" and isinstance(y, int):
+                    consts_len.add(y)
+            op = e.ops[0]
+            A, B = coqv(a), coqv(b)
+            if isinstance(op, ast.Gt):
+                return "(%s <? %s)" % (B, A)
+            if isinstance(op, ast.GtE):
+                return "(%s <=? %s)" % (B, A)
+            if isinstance(op, ast.Lt):
+                return "(%s <? %s)" % (A, B)
+            if isinstance(op, ast.LtE):
+                return "(%s <=? %s)" % (A, B)
+            if isinstance(op, ast.Eq):
+                return "(%s =? %s)" % (A, B)
+            if isinstance(op, ast.NotEq):
+                return "(negb (%s =? %s))" % (A, B)
+        raise P.Untranslatable("dataReceived: header test %s" % ast.unparse(e))
+
+    def is_split(st, rest):
+        """`header, self.buffer = self.buffer[:eoh], self.buffer[eoh+K:]` or the same as two assignments"""
+        u = ast.unparse(st)
+        def kof(txt):
+            txt = txt.strip()
+            if txt.isdigit():
+                return int(txt)
+            return ienv.get(txt)
+        m1 = __import__("re").fullmatch(r"\(?header, self\.buffer\)? = \(?self\.buffer\[:eoh\], self\.buffer\[eoh \+ (\w+):\]\)?", u)
+        if m1 and kof(m1.group(1)) is not None:
+            split_k.append(kof(m1.group(1)))
+            return True
+        if u == "header = self.buffer[:eoh]" and rest:
+            m2 = __import__("re").fullmatch(r"self\.buffer = self\.buffer\[eoh \+ (\w+):\]", ast.unparse(rest[0]))
+            if m2 and kof(m2.group(1)) is not None:
+                split_k.append(kof(m2.group(1)))
+                return True
+        return False
+
+    def run(stmts):
+        if not stmts:
+            raise P.Untranslatable("dataReceived: a path after the terminator search neither raises, returns nor splits the buffer")
+        st, rest = stmts[0], list(stmts[1:])
+        if isinstance(st, ast.Raise):
+            if "BananaError" not in ast.unparse(st):
+                raise P.Untranslatable("dataReceived: the header refusal raises %s" % ast.unparse(st))
+            return "0"
+        if isinstance(st, ast.Return):
+            if st.value is not None and ast.unparse(st.value) != "None":
+                raise P.Untranslatable("dataReceived: return with a value")
+            return "1"
+        if is_split(st, rest):
+            return "2"
+        if isinstance(st, ast.Assign) and len(st.targets) == 1 and isinstance(st.targets[0], ast.Name) and st.targets[0].id not in ("eoh", "header"):
+            # a local bound (once in the whole function) to an int literal
+            nm = st.targets[0].id
+            nstores = sum(1 for n in ast.walk(dr) if isinstance(n, ast.Name) and n.id == nm and isinstance(n.ctx, (ast.Store, ast.Del)))
+            v = val(st.value)
+            if nstores != 1 or not isinstance(v, int):
+                raise P.Untranslatable("dataReceived: local %s is not a once-bound int literal" % nm)
+            ienv[nm] = v
+            return run(rest)
+        if isinstance(st, ast.If):
+            return "(if %s then %s else %s)" % (cond(st.test), run(list(st.body) + rest), run(list(st.orelse) + rest))
+        raise P.Untranslatable("dataReceived: unexpected statement between the terminator search and the split: %s" % ast.unparse(st)[:100])
+    verdict = run(tb[finds[0] + 1:])
+    out.append("(* Negotiation.dataReceived between `eoh = self.buffer.find(terminator)` and the split: 0 = refuse, 1 = wait for more, 2 = split *)\n"
+               "Definition header_verdict (eoh buflen : Z) : Z :=\n  %s." % verdict)
+    caps = sorted(c for c in consts_eoh if c != -1)
+    if len(caps) != 1 or len(consts_len) != 1 or len(set(split_k)) != 1:
+        raise P.Untranslatable("dataReceived: header tests use the constants eoh:%r len:%r split:%r" % (sorted(consts_eoh), sorted(consts_len), split_k))
+    cap, lim = caps[0], sorted(consts_len)[0]
+    if split_k[0] != 4 or lim - cap != 4:
+        raise P.Untranslatable("dataReceived: terminator length %r / slack %r are not 4" % (split_k, lim - cap))
+    out.append("Definition negotiation_noterm_slack : Z := %d.  (* give up without a terminator once cap + slack bytes are buffered *)" % (lim - cap))
+    out.append("Definition negotiation_header_cap : Z := %d." % cap)
     out.append("Definition negotiation_cap_counts_following_data : bool := false.  (* the cap is tested on the block only *)")
 
     # --- vocab tables
